@@ -363,6 +363,17 @@ func Current(kind string, raw []byte) {
 	binary.LittleEndian.PutUint32(st.cur[0:], 0x56504355)
 }
 
+// Scribble overwrites a buffer that was handed to a decoding function, after
+// the call: the encoding.TextUnmarshaler / json.Unmarshaler contracts let the
+// caller reuse its buffer once the call has returned, so a decoded value that
+// still aliases it changes under the caller's feet.
+func Scribble(b []byte) {
+	const junk = "!scribbled by the caller! "
+	for i := range b {
+		b[i] = junk[i%len(junk)]
+	}
+}
+
 // inBatch is set while RunConcurrent runs a batch: the batch is the case in
 // flight, and the checks of its members (which run concurrently) must not
 // overwrite it.
